@@ -158,6 +158,10 @@ func genC02(g engine.G) *engine.Case {
 	default:
 		sc = engine.GenUnderivable(g, o)
 	}
+	if g.Pct(10) {
+		// one subtype label becomes its upper-case twin: a different label
+		engine.CaseTwinSubtype(g, sc)
+	}
 	c := &engine.Case{Sc: sc, Reps: 3}
 	// multi-step: values were written into the functions' own value sets
 	// before the call (wrapper idiom / FromSignature); see World.Prime
